@@ -84,6 +84,12 @@ CHECKS = {
             'at session end; for every session the fills of the trace are replayed through a reference automaton and the hook sequence (open, increases/reductions, close - each once), the position size seen '
             'in each hook, every closed trade (side, quantity, quantity-weighted entry and exit, times, order list), the identity sum(trade PnL) == wallet change and net_profit == finishing - starting balance are compared.',
             'Word length 4 over 6 shapes (quick) / 5 over 8 (thorough); spot sessions use fee 0 so fixed-size exit ladders equal the holding.', 'DESIGN.md 3/C06'),
+    'C09': ('session', 'complete enumeration of the price formulas for leverage 1..125 + exhaustive product of liquidation scenarios (leverage x side x entry averaging x approach/touch/cross/gap relative to the liquidation price x distance x protective stop x account mode x simulator) with a trace oracle',
+            'The formulas are evaluated on real Position objects for every leverage 1..125, both sides, three entries (liquidation strictly between entry and bankruptcy price; none in cross/spot). '
+            'Every scenario is run twice: a calibration run reads the position\'s own liquidation/bankruptcy price, then the probe candle is placed one tick short of / exactly on / one tick beyond / gapping over it. '
+            'From the trace alone: after every matching phase (minute or fast-mode chunk) an open position whose phase range contains the liquidation price must be force-closed at once by exactly one reduce-only market fill '
+            'of the whole position at the bankruptcy price, counted in total_liquidations, losing initial margin plus fees, with nothing left active; any other force-close is spurious; none in cross or spot.',
+            'tick = entry*1e-4; leverages {1,2,5,25,125} quick / 10 values thorough.', 'DESIGN.md 3/C09'),
 }
 
 NOT_APPLICABLE = {}
